@@ -3,6 +3,7 @@
     Storage::empty; the theorems below are about that save on every well-formed state.  The specification
     object is [valid_pdf] (Storage/Valid.v), an independent reading of the bytes. *)
 From PdfV Require Import Base.Prelude Storage.Prim Storage.Model Storage.Proofs Storage.Syntax Storage.Run Storage.Tables Storage.Valid.
+From PdfV Require Import Storage.Builder Storage.Reload Storage.BuilderProofs.
 From PdfV Require Syn.Serialize.
 
 (** Every in-use entry of a saved object points (relative to the header) at its `id gen obj` header. *)
@@ -43,18 +44,65 @@ Proof.
 Qed.
 Print Assumptions C10_startxref.
 
-(** The whole statement about the bytes — not proved universally (the validator tokenises every object);
-    it is evaluated by the extracted [valid_code] on the implementation's real output in every case, and
-    on the model's output in the examples below. *)
+(** ---- the builder: PdfBuilder::build / CatalogBuilder::build as the Gallina program [Builder.build] over the storage
+    model, for every page list (Storage/Builder.v; tied to the real builder byte for byte by mode `build_bytes`). ---- *)
+
+(** C10_valid (structural part, proved): the bytes of every build are structurally valid in the sense of [valid_struct]
+    (stated on the bytes and on the table the file's own cross-reference stream encodes): header first; the file ends
+    with the cross-reference stream object — the last table entry, at the offset `startxref` announces — then
+    `startxref`, the offset, `%%EOF`; the stream data decodes (parse_xref_section_from_stream) to exactly the table;
+    /Size is not below the number of entries, /Length is the byte count of the data, /W and /Index describe the rows;
+    entry 0 is free and every other entry is in use and points at the `num 0 obj` header of that very number. *)
+Theorem C10_valid_struct : forall ps info s' tr',
+  build ps info = Ok (s', tr', None) -> lenN (backend s') < 2 ^ 64 -> valid_struct (backend s') (refs s').
+Proof. exact build_valid_struct. Qed.
+Print Assumptions C10_valid_struct.
+
+(** C10_reload: a reload of the built file (a state over the built bytes whose table is the saved table: C09_load_table)
+    resolves the trailer's /Root to the catalog, its /Pages to a page tree whose /Kids are as many references as pages
+    were given, in order ([Forall2]), each resolving to the page dictionary `other entries ++ Type, Parent, Resources,
+    MediaBox?, CropBox?, TrimBox?, Contents, Rotate` of that page — the boxes, rotation and extra entries given — whose
+    /Contents resolves to a stream of exactly the given content bytes; and the information dictionary comes back.
+    Composition of [build_catalog_spec] with C09_reload / C09_reload_stream; the side conditions are C04's storable
+    domain for the values the caller supplies ([page_ok], [info_ok]). *)
+Theorem C10_reload : forall ps info s' tr',
+  Forall page_ok ps -> info_ok info -> lenN ps < 1000000 ->
+  build ps info = Ok (s', tr', None) ->
+  forall member s3, reloaded s' s3 ->
+  exists tree kids,
+    resolve parse_obj member s3 (t_root tr') = Ok (PDict (catalog_dict tree)) /\
+    resolve parse_obj member s3 tree = Ok (PDict (tree_dict kids)) /\
+    Forall2 (page_reloaded member s3 tree) kids ps /\
+    t_info tr' = info /\
+    match info with
+    | Some d => resolve parse_obj member s3 (lenN (refs s') - 2, 0) = Ok (PDict d)
+    | None => True
+    end.
+Proof. exact build_reload. Qed.
+Print Assumptions C10_reload.
+
+(** the state the builder hands to save is well-formed (so every C09 theorem applies to the save of a build) and
+    contains exactly the objects of the document *)
+Theorem C10_build_state : forall ps s4 cat,
+  build_catalog ps = Ok (s4, cat) ->
+  wf_st s4 /\ start s4 = 0 /\ backend s4 = backend empty_storage /\ lenN (refs s4) = 3 * lenN ps + 3 /\
+  exists tree kids,
+    clookup (changes s4) (fst cat) = Some (PDict (catalog_dict tree), 0) /\ snd cat = 0 /\ fst cat < lenN (refs s4) /\
+    clookup (changes s4) (fst tree) = Some (PDict (tree_dict kids), 0) /\ snd tree = 0 /\ fst tree < lenN (refs s4) /\
+    Forall2 (page_written s4 tree) kids ps.
+Proof. exact build_catalog_spec. Qed.
+Print Assumptions C10_build_state.
+
+(** The whole statement about the bytes as the *executable* validator reads them — not proved universally (the
+    validator tokenises every object body with its own tokeniser; [C10_valid_struct] proves the structure it checks
+    around the bodies); it is evaluated by the extracted [valid_code] on the implementation's real output in every
+    case — which the builder model reproduces byte for byte — and on the model's output in the examples below. *)
 Definition C10_full_statement : Prop :=
   forall s tr s' tr', wf_st s -> start s = 0 -> prefixb HEADER (backend s) = true ->
     save Serialize.ser s tr = Ok (s', tr', None) -> valid_pdf (backend s') = true.
 
-(** Storage::empty *)
-Definition empty_storage : st := mkSt [XFree 0 65535] [] [37; 80; 68; 70; 45; 49; 46; 55; 10] 0 [] false.
 
 Definition n_ (s : list N) : prim := PName s.
-Definition kT := [84; 121; 112; 101].
 
 (** CatalogBuilder::build for one page + PdfBuilder::build, as a program over the storage model *)
 Definition build_one_page (info : option dict) : res (st * trailer * option N) :=
@@ -89,3 +137,18 @@ Example C10_validator_rejects :
       valid_code (take 9 b ++ [32] ++ drop 9 b) <> 0 /\ valid_code (drop 1 b) <> 0
   | _ => False end.
 Proof. vm_compute. split; discriminate. Qed.
+
+(** the general builder on a two-page document with boxes, rotation, extra entries and an information dictionary:
+    the executable validator accepts the bytes (non-vacuity of [Builder.build], [C10_valid_struct], [C10_reload]) *)
+Example C10_example_pages : list page :=
+  [mkPage [([88], PInt 5); ([89; 107], PName [83])] (Some [PInt 0; PInt 0; PInt 612; PInt 792])
+          (Some [PInt 10; PInt 20; PReal [49; 48; 48; 46; 53]; PInt 300]) None 90 [113; 10; 81; 10];
+   mkPage [] (Some [PInt 0; PInt 0; PInt 595; PInt 842]) None None 0 []].
+Example C10_example_build :
+  match build C10_example_pages (Some [([84; 105; 116; 108; 101], PStr [104; 105; 40])]) with
+  | Ok (s', _, None) => valid_code (backend s') = 0 /\ lenN (refs s') = 11
+  | _ => False end.
+Proof. vm_compute. split; reflexivity. Qed.
+Example C10_example_build_empty :
+  match build [] None with Ok (s', _, None) => valid_code (backend s') = 0 | _ => False end.
+Proof. vm_compute. reflexivity. Qed.
